@@ -386,15 +386,15 @@ Section Univ.
   Notation index_all := (index_all N mf succs).
   Notation st_push := (st_push mf).
   Notation delete1 := (delete1 succs).
-  Notation delete_loop := (delete_loop N mf succs subj).
-  Notation st_delete := (st_delete N mf succs subj).
+  Notation delete_loop := (delete_loop N mf succs subj true).
+  Notation st_delete := (st_delete N mf succs subj true).
   Notation gc_pass1 := (gc_pass1 N mf succs).
   Notation gc_round := (gc_round N mf succs subj sk).
   Notation gc_rounds := (gc_rounds N mf succs subj sk).
   Notation st_gc := (st_gc N mf succs subj sk true true true).
   Notation reopen := (reopen N mf succs).
-  Notation step := (step N mf succs subj sk true true true).
-  Notation run := (run N mf succs subj sk true true true).
+  Notation step := (step N mf succs subj sk true true true true).
+  Notation run := (run N mf succs subj sk true true true true).
   Notation obs_equiv := (obs_equiv N succs dflt).
   Notation wf_op := (wf_op mf).
   Notation wf_history := (wf_history mf).
@@ -760,9 +760,9 @@ Section Univ.
       + apply mem_false in M. split; [now apply I2|]. intro X; congruence.
   Qed.
 
-  Lemma delete_loop_good cfg o fuel : forall ds qq s, Good cfg s -> Good cfg (fst (delete_loop fuel cfg o ds qq s)).
+  Lemma delete_loop_good cfg o fuel : forall ds qq pd s, Good cfg s -> Good cfg (fst (delete_loop fuel cfg o ds qq pd s)).
   Proof.
-    induction fuel as [|f IH]; intros ds qq s G; simpl; auto.
+    induction fuel as [|f IH]; intros ds qq pd s G; simpl; auto.
     destruct (fst qq) as [|h q]; simpl; auto.
     pose proof (delete1_good cfg o h s G) as G1.
     destruct (delete1 cfg o h s) as [[s' dang] okb]. simpl in G1.
@@ -1165,7 +1165,7 @@ Lemma refuted_gc_not_saved :
   exists (N : nat) (mf : nat -> bool) (succs : nat -> list nat) (subj : nat -> option nat)
          (sk dflt : nat -> bool) (cfg : config) (h : list (op * orders)),
     autosave cfg = true /\ wf_history mf h /\
-    let s := run N mf succs subj sk false true true cfg h store_empty in
+    let s := run N mf succs subj sk false true true true cfg h store_empty in
     obs_resolve_dig dflt (reopen N mf succs s) 0 <> obs_resolve_dig dflt s 0 /\ disk_valid s = false.
 Proof.
   exists 1, (fun _ => true), (fun _ => []), (fun _ => None), (fun _ => false), (fun _ => false),
@@ -1182,7 +1182,7 @@ Lemma refuted_gc_drops_digest_ref :
   exists (N : nat) (mf : nat -> bool) (succs : nat -> list nat) (subj : nat -> option nat)
          (sk dflt : nat -> bool) (cfg : config) (h : list (op * orders)),
     autosave cfg = true /\ wf_history mf h /\ (forall k, mf k = false -> succs k = []) /\
-    let s := run N mf succs subj sk true false true cfg h store_empty in
+    let s := run N mf succs subj sk true false true true cfg h store_empty in
     obs_preds N succs (reopen N mf succs s) 0 <> obs_preds N succs s 0.
 Proof.
   exists 3, ex_mf, ex_succs, (fun _ => None), (fun _ => true), (fun _ => false),
@@ -1203,7 +1203,7 @@ Definition ex_hist : list (op * orders) :=
     (ODelete 2, mkOrd [1] [] [] [] [([1], [2;0])]); (OReopen, ord0); (OPush 2, ord0) ].
 Lemma example_history :
   wf_history ex_mf ex_hist /\ (forall k, ex_mf k = false -> ex_succs k = []) /\
-  let s := run 3 ex_mf ex_succs (fun _ => None) (fun _ => true) true true true ex_cfg ex_hist store_empty in
+  let s := run 3 ex_mf ex_succs (fun _ => None) (fun _ => true) true true true true ex_cfg ex_hist store_empty in
   obs_tags 3 s = [0] /\ obs_resolve_tag s 0 = Some (mkDesc 1 2 (Some (RTag 0))) /\
   obs_preds 3 ex_succs s 1 = [2] /\ obs_preds 3 ex_succs s 0 = [1] /\
   obs_preds 3 ex_succs (reopen 3 ex_mf ex_succs s) 0 = [1] /\ disk_valid s = true.
@@ -1213,7 +1213,7 @@ Proof.
   - vm_compute. repeat split.
 Qed.
 Lemma example_repaired :
-  let s := run 3 ex_mf ex_succs (fun _ => None) (fun _ => true) true true true ex_cfg
+  let s := run 3 ex_mf ex_succs (fun _ => None) (fun _ => true) true true true true ex_cfg
              (ex_plain_hist [OPush 1; OPush 2; OTag (plain 2) (RTag 0); OGC; ODelete 2]) store_empty in
   obs_preds 3 ex_succs (reopen 3 ex_mf ex_succs s) 0 = [1] /\ obs_preds 3 ex_succs s 0 = [1].
 Proof. vm_compute. split; reflexivity. Qed.
@@ -1222,7 +1222,7 @@ Proof. vm_compute. split; reflexivity. Qed.
    equivalence: why [wf_history] is needed *)
 Lemma inconsistent_reference_example :
   exists h, ~ wf_history (fun _ => true) h /\
-    let s := run 2 (fun _ => true) (fun _ => []) (fun _ => None) (fun _ => true) true true true ex_cfg h store_empty in
+    let s := run 2 (fun _ => true) (fun _ => []) (fun _ => None) (fun _ => true) true true true true ex_cfg h store_empty in
     obs_resolve_dig (fun _ => false) (reopen 2 (fun _ => true) (fun _ => []) s) 1 <> obs_resolve_dig (fun _ => false) s 1.
 Proof.
   exists (ex_plain_hist [OPush 0; OTag (plain 0) (RDig 1)]).
@@ -1238,8 +1238,8 @@ Lemma prefix_gc_hangs :
   let mf := fun k => Nat.eqb k 1 in
   let succs := fun k : nat => if Nat.eqb k 1 then [0] else [] in
   let subj := fun k : nat => if Nat.eqb k 1 then Some 0 else None in
-  let s1 := run 2 mf succs subj mf true true false ex_cfg (ex_plain_hist [OPush 1]) store_empty in
-  snd (step 2 mf succs subj mf true true false ex_cfg s1 (OGC, ord0)) = RHang /\
-  let r := step 2 mf succs subj mf true true true ex_cfg s1 (OGC, ord0) in
+  let s1 := run 2 mf succs subj mf true true false true ex_cfg (ex_plain_hist [OPush 1]) store_empty in
+  snd (step 2 mf succs subj mf true true false true ex_cfg s1 (OGC, ord0)) = RHang /\
+  let r := step 2 mf succs subj mf true true true true ex_cfg s1 (OGC, ord0) in
   snd r = ROk /\ obs_exists (fst r) 1 = false.
 Proof. vm_compute. repeat split. Qed.
